@@ -7,11 +7,28 @@ hook_commits = subprocess.run(['git', '-C', '/repo', 'log', '--format=%H %s'], c
 hook_commits = [l.split()[0] for l in hook_commits if 'verif hooks' in l]
 
 SIM = "deterministic simulation with fault injection: real code in a synctest bubble, seeded scheduler at I/O seams, world model, seeded search over scenarios/schedules/faults, shrinking + replay"
+L1NOTE = "Trusted: the world model (hwmon driver semantics: accepts 0..255, optional idempotent quantiser; fan plant; temperature programmes), reconstruction of control cycles from seam events, the classification of call stacks (regulating / restore / start-up) by function name, testing/synctest's fake clock. "
 claimed = {
+ "C01": dict(cat="exploration", ref="§3/C01",
+   text="Seeded search over fan limits, PWM maps (configured, swept against quantising drivers), algorithms incl. random-gain PID, absurd temperature histories, stalls and read/write faults; the real controller runs closed loop in virtual time and every PWM write issued from the regulating cycle is compared with the reference image set of requests within [min,max]. Evidence, not proof.",
+   note=L1NOTE+"file/cmd fans: fixed limits 0/255; raises are not added to the floor (weaker, sound).",
+   tech="deterministic simulation (closed loop in virtual time, fault injection), reference image-set oracle on every regulating write"),
+ "C02": dict(cat="exploration", ref="§3/C02",
+   text="Seeded search over neverStop fans (hwmon with configured or curve-derived minimum, file, cmd), algorithms and rotor-stall episodes injected into the fan plant; per control cycle the request (observed as PWM file content through identity read-back) is compared with the reference floor, raises must be strict and permanent, the reported minimum must never drop.",
+   note=L1NOTE+"Requests are only observable for identity maps; startPwm is not configured without minPwm here.",
+   tech="deterministic simulation with plant-stall fault injection, per-cycle floor/raise invariants"),
  "C05": dict(cat="exploration", ref="§3/C05",
    text="Seeded search over third-party interference instants (by virtual time and by scheduler decision index, between and inside control cycles), externally written modes/PWM values, curve trajectories, algorithms and read-back-faithful PWM maps, against the real controller + real hwmon fan code in virtual time; oracle on driver files and the public statistics after the next full cycle. A clean batch is evidence, not proof.",
-   note="Trusted: the world's hwmon driver model (accepts 0..255, optional idempotent quantiser), the cycle reconstruction from seam events (ctl.tick / ctl.cycle.end yields), testing/synctest's fake clock. Interference that lands inside a running cycle is only required to be undone and counted at most once.",
+   note=L1NOTE+"Interference that lands inside a running cycle is only required to be undone and counted at most once.",
    tech="deterministic simulation (seeded schedule + third-party fault injection), oracle on driver state per control cycle"),
+ "C10": dict(cat="exploration", ref="§3/C10",
+   text="Bounded liveness in counted RPM polls under a simulated clock: for seeded window sizes 1..50, prior RPM histories and stall instants, the request must rise within 20n+20 polls of continuous 0 RPM (again after each raise), and at the maximum the controller must report, stop regulating and restore the fan. Minutes of polling cost seconds in virtual time.",
+   note=L1NOTE+"The constant 20 is an oracle parameter taken from the property wording; cycles run at least as often as polls; algorithms restricted to those that settle (premise: request unchanged).",
+   tech="deterministic simulation (virtual time, plant-stall injection), bounded-liveness oracle in counted polls"),
+ "C12": dict(cat="exploration", ref="§3/C12",
+   text="Every control cycle of full-range fans with the direct algorithm (request = curve value) is compared with the reference nearest-supported-input computation, over configured maps (sparse, plateaus) and maps produced by the real sweep against quantising drivers; the decision not to write is judged too.",
+   note=L1NOTE+"Honest scope: the relation is a pure function; simulation contributes swept maps, persistence and the write-skip logic. Requests outside 0..255 are unreachable through the running system and not covered.",
+   tech="deterministic simulation as host; reference-model comparison per cycle"),
 }
 checks = []
 for p in props:
